@@ -598,7 +598,7 @@ pub fn check_aux(prop: &str, c: &AuxCase, rep: &mut Report) {
 
 fn gen_aux(r: &mut Rng, thorough: bool) -> AuxCase {
     let kind = *r.pick(&["knn", "knn", "welzl", "welzl", "epos6", "epos6_spheres"]);
-    let scale = *r.pick(&[1., 1., 1e-3, 1e3]);
+    let scale = *r.pick(&[1., 1., 1e-3, 1e3, 1e-7, 1e6]);
     match kind {
         "knn" => {
             let asp = *r.pick(&[DVec3::ONE, DVec3::ONE, DVec3::new(1., 0.37, 2.9), DVec3::new(1., 20., 0.5), DVec3::new(3., 1., 1.), DVec3::new(1., 1., 7.)]);
